@@ -108,7 +108,16 @@ func vBytes(name string, n int) []byte {
 	full := vSym(name)
 	out := make([]byte, n)
 	for i := range out {
-		out[i] = byte(vLookup(fmt.Sprintf("%s[%d]", full, i)).Uint64())
+		key := fmt.Sprintf("%s[%d]", full, i)
+		if _, ok := vState.file.Assign[key]; ok {
+			out[i] = byte(vLookup(key).Uint64())
+		} else {
+			// a byte the recorded assignment does not mention: deterministic
+			// pseudo-random filler (a randomness source that returns only zeros
+			// would make crypto/dsa.Sign spin forever)
+			s := sha256.Sum256([]byte(key))
+			out[i] = s[0]
+		}
 	}
 	return out
 }
